@@ -108,3 +108,25 @@ _txt('kw', [
     Rule('s', [[L('if'), T('NAME')], [T('NAME'), L('=')], [T('ELSE')], [T('INT')]]),
 ], [Term('NAME', ('re', '[a-z]+')), Term('ELSE', ('str', 'else'), flags='i'), Term('INT', ('re', '[0-9]+')),
     Term('WS', ('re', r'[ \n]+'))], ignore=['WS'], tags={'lalr', 'kw'})
+
+# colliding terminals: resolved dynamically by the Earley lexers
+_txt('collide', [
+    Rule('start', [[Plus(N('x'))]]),
+    Rule('x', [[T('AB')], [T('A')], [T('B')], [T('C')]]),
+], [Term('A', 'a'), Term('B', 'b'), Term('AB', 'ab'), Term('C', ('re', 'c+'))], tags={'ambiguous', 'dyn'})
+
+_txt('letx', [
+    Rule('start', [[Plus(N('s'))]]),
+    Rule('s', [[T('KW'), T('NAME')], [T('NAME'), L('='), T('NUM')]]),
+], [Term('KW', 'let'), Term('NAME', ('re', '[a-z]+')), Term('NUM', ('re', '[0-9]+')), Term('WS', ('re', ' +'))], ignore=['WS'], tags={'dyn'})
+
+_txt('nulltxt', [
+    Rule('start', [[N('a'), N('b'), Opt(T('END'))]]),
+    Rule('a', [[Opt(L('x'))]]),
+    Rule('b', [[Star(T('Y'))], [T('Y'), L('x')]]),
+], [Term('Y', ('re', 'y+')), Term('END', ('re', r'zz|z')), Term('SP', ' ')], ignore=['SP'], tags={'ambiguous', 'dyn'})
+
+# a raw regexp whose preferred (first-alternative) match is not its longest one: recorded finding for the dynamic lexers
+_txt('prefalt', [
+    Rule('start', [[Opt(L('x')), Opt(T('END'))]]),
+], [Term('END', ('re', r'z|zz'))], tags={'dyn', 'finding'})
